@@ -128,3 +128,23 @@ Theorem C14_function_representation_on_the_layout_array_is_the_specifications_re
   function_representation (layout_array sts F) None [] (map Z.of_nat dl) (conts_of sts vals) == q.
 Proof. exact function_representation_on_the_layout_array. Qed.
 Print Assumptions C14_function_representation_on_the_layout_array_is_the_specifications_read.
+
+(* capstone with filter-restricted states: the array stores the table as [rank of the restricted-state  *)
+(* combination among the remaining ones] ++ unrestricted discrete states ++ continuous states, the        *)
+(* indexer maps restricted labels to that rank (-1 for combinations that do not remain); called with the   *)
+(* next state's restricted labels, unrestricted discrete labels and continuous axes, the function           *)
+(* representation returns the value the specification's read returns, provided the next state's            *)
+(* restricted combination remains (the supported class of C01)                                              *)
+From LCM Require Import Proofs.C14_OnLayoutIx.
+Theorem C14_function_representation_on_the_indexed_layout_is_the_specifications_read :
+  forall (isr : string -> bool) (remaining : list (list nat))
+         (sts : list (string * grid)) (F : list nat -> Q) (vals : list Q) (q : Q) (dl_all : list nat),
+  grids_valid sts -> length vals = length sts ->
+  qread sts F vals = Some q -> disc_labels sts vals = Some dl_all ->
+  In (fst (split_labels isr sts dl_all)) remaining ->
+  vread sts (fun idx => VFin (F idx)) vals = VFin q /\
+  function_representation (layout_array_ix isr remaining sts F) (Some (indexer_array isr remaining sts))
+                          (map Z.of_nat (fst (split_labels isr sts dl_all)))
+                          (map Z.of_nat (snd (split_labels isr sts dl_all))) (conts_of sts vals) == q.
+Proof. exact function_representation_on_the_indexed_layout. Qed.
+Print Assumptions C14_function_representation_on_the_indexed_layout_is_the_specifications_read.
